@@ -224,6 +224,10 @@ class Discharger:
                         if cons and dropfn and all(g.id == dropfn.id for g, _, _ in cons):
                             return ("D-STATE", "state %s::%s exists only inside the type's own Drop" % (short(rv["adt"]), arms[0]))
                     break
+        if t["t"] == "call" and re.search(r"core::panicking::|begin_panic", name):
+            r = self.negated_guard(f, bb)
+            if r:
+                return r
         if kind == "index":
             rn = t.get("res_name") or ""
             if "RangeFull" in rn:
@@ -241,6 +245,47 @@ class Discharger:
             r = self.guarded_arith(f, bb, t)
             if r:
                 return r
+        return None
+
+    REL = {"Lt": {"<"}, "Le": {"<", "="}, "Gt": {">"}, "Ge": {">", "="}, "Eq": {"="}, "Ne": {"<", ">"}}
+
+    def negated_guard(self, f, bb):
+        """`assert!(a >= b)` right after `if a < b { return .. }`: the failing side contradicts a
+        dominating comparison of the same two values"""
+        P = f.preds(unwind=False)
+        preds = P[bb]
+        if len(preds) != 1:
+            return None
+        s_bb = preds[0]
+        bs = bool_switch(f, s_bb)
+        if not bs:
+            return None
+        c = f.origin(bs[0])
+        if c[0] != "binop" or c[1] not in self.REL:
+            return None
+        fail = self.REL[c[1]] if bs[1] == bb else ({"<", "=", ">"} - self.REL[c[1]])
+        dom = f.dominators(False)
+        for d in sorted(dom[s_bb] - {s_bb}, key=lambda b: -len(dom[b])):
+            bs2 = bool_switch(f, d)
+            if not bs2 or bs2[1] == bs2[2]:
+                continue
+            c2 = f.origin(bs2[0])
+            if c2[0] != "binop" or c2[1] not in self.REL:
+                continue
+            if not (taint.origin_eq(c2[2], c[2]) and taint.origin_eq(c2[3], c[3])):
+                continue
+            if f.dominates(bs2[1], s_bb, unwind=False):
+                known = self.REL[c2[1]]
+            elif f.dominates(bs2[2], s_bb, unwind=False):
+                known = {"<", "=", ">"} - self.REL[c2[1]]
+            else:
+                continue
+            # the compared locals must not be re-assigned between the two tests
+            locs = {x[1] for x in origin_walk(c[2]) if x[0] == "local"} | {x[1] for x in origin_walk(c[3]) if x[0] == "local"}
+            between = f.reach([d], unwind=False) & {b for b in dom if d in dom[b]} & {b for b in f.live_blocks(False) if s_bb in f.reach([b], unwind=False)}
+            redefined = any(dd[0] in ("assign", "call") and dd[1] in between and dd[1] != d for l in locs for dd in f.defs().get(l, []) if dd[0] != "arg")
+            if not redefined and not (fail & known):
+                return ("D-NEGATED-GUARD", "the failing side (%s) contradicts the dominating test `%s` of the same values" % (c[1], c2[1]))
         return None
 
     def _is_swapped_slot(self, f, t, fld):
@@ -562,3 +607,34 @@ def anchor_of(g, bb, t, ordinal):
     if t["t"] == "assert":
         return "%s#%d" % (re.split(r"[ ({]", t["kind"])[0], ordinal)
     return "#%d" % ordinal
+
+
+def run_thorough(ctx):
+    """thorough tier: the panic census is extended to the generic MIR of chunked_transfer's Decoder (the
+    dependency code that parses client bytes), and the taint analysis to its chunk-size parser"""
+    facts = ctx.facts
+    D = Discharger(ctx)
+    fns = {k: g for k, g in facts.fns.items() if not g.rec.get("local") and re.search(r"chunked_transfer::(decoder::)?Decoder", k)}
+    ctx.floor("C14.B(thorough) Decoder bodies", len(fns), 4)
+    n = 0
+    ords = {}
+    for k in sorted(fns):
+        g = fns[k]
+        ctx.touch(g)
+        for bb, kind, desc, t in region.panic_sites(facts, g):
+            n += 1
+            r = D.discharge(g, bb, kind, t)
+            kk = (k, kind)
+            ords[kk] = ords.get(kk, 0) + 1
+            ctx.ob("C14.B", "[dep]%s|%s|%s" % (k, kind, anchor_of(g, bb, t, ords[kk])), "a construct that can panic in the chunk decoder (dependency code parsing client bytes) is provably not triggerable",
+                   r is not None and r[0] != "DEFER-POISON", g.loc(bb), ("%s: %s" % r) if r else "no discharge rule applies (%s)" % desc)
+    T = taint.Taint(facts, fns)
+    ns = 0
+    for k in sorted(fns):
+        g = fns[k]
+        for bb, t, idx in taint.sink_sites(g):
+            ns += 1
+            tainted = T.op_tainted(g, t["args"][idx])
+            bound = taint.bounded_by_constant(g, bb, t["args"][idx]) if tainted else None
+            ctx.ob("C14.A", "[dep]%s|alloc|%s" % (k, short(call_name(t))), "no allocation in the chunk decoder is sized by a client-declared chunk length", (not tainted) or bound is not None, g.loc(bb))
+    return {"decoder_panic_sites": n, "decoder_alloc_sinks": ns, "decoder_taint_sources": len(T.sources)}
